@@ -189,6 +189,9 @@ pub fn run(ctx: &Ctx) -> i32 {
                 if case.prog.parts.iter().any(|p| matches!(p, gproc::Part::SharedAwait { .. })) {
                     stats.class("several-awaiters-of-one-running-process");
                 }
+                if case.prog.parts.iter().any(|p| matches!(p, gproc::Part::SelectKnownFirst { .. })) {
+                    stats.class("select-over-finished-running-and-blocked-processes");
+                }
                 stats.class(&format!("workers<={}", f.max_workers));
                 if f.processes >= 3 && f.max_workers >= 2 && r.has_messages {
                     stats.nontrivial(&r.source);
@@ -220,13 +223,13 @@ pub fn run(ctx: &Ctx) -> i32 {
         ctx,
         stats: &stats,
         violations,
-        rule: "programs composed of 1-3 confluent parts (fork/join with generated await order and repeated awaits, forwarding pipelines, sequential request/reply through the parent's mailbox, await chains through captured process handles, late awaits of finished processes, binaries built in children and awaited or streamed as messages); each run under a baseline (1 worker, quantum 1000, round-robin) and 10 (quick) generated configurations: workers 1-5, quantum in {1,2,3,7,64,1000}, schedule bytes choosing among enabled environment/worker steps with partial visibility (1, 2 or all queued messages); evaluations = simulator runs; non-trivial = >= 3 processes, >= 2 workers and message passing; distinct by program text".into(),
+        rule: "programs composed of 1-3 confluent parts (fork/join with generated await order and repeated awaits, forwarding pipelines, sequential request/reply through the parent's mailbox, await chains through captured process handles, late awaits of finished processes, several awaiters of one running process, a select over one finished, some running and some blocked processes, binaries built in children and awaited or streamed as messages); each run under a baseline (1 worker, quantum 1000, round-robin) and 10 (quick) generated configurations: workers 1-5, quantum in {1,2,3,7,64,1000}, schedule bytes choosing among enabled environment/worker steps with partial visibility (1, 2 or all queued messages); evaluations = simulator runs; non-trivial = >= 3 processes, >= 2 workers and message passing; distinct by program text".into(),
         assumptions: vec![
             "transport model: FIFO per channel with arbitrary delay (what std::sync::mpsc provides); real OS threads are not exercised".into(),
             "confluence is by construction of the generator (single-sender mailboxes, no racing timeouts)".into(),
             "a run that exhausts the move budget is inconclusive, never a violation".into(),
         ],
-        required_classes: vec!["quantum-1", "await-after-target-finished", "has-messages", "has-binaries", "workers<=5", "message-delivered-while-receiver-is-spawning"],
+        required_classes: vec!["quantum-1", "await-after-target-finished", "has-messages", "has-binaries", "workers<=5", "message-delivered-while-receiver-is-spawning", "several-awaiters-of-one-running-process", "select-over-finished-running-and-blocked-processes"],
         started,
         technique: "proptest-generated confluent process systems x generated schedules in a deterministic simulator; oracle = metamorphic equality with the baseline schedule, plus no hang/panic/step error",
     })
